@@ -15,6 +15,8 @@ pub mod c14;
 pub mod c15;
 pub mod c16;
 pub mod c17;
+pub mod c18;
+pub mod c19;
 pub mod c20;
 pub mod hist;
 
@@ -44,6 +46,8 @@ pub fn run(cfg: &RunCfg) -> i32 {
         "C15" => c15::run(cfg),
         "C16" => c16::run(cfg),
         "C17" => c17::run(cfg),
+        "C18" => c18::run(cfg),
+        "C19" => c19::run(cfg),
         "C20" => c20::run(cfg),
         other => {
             eprintln!("unknown property {other}");
@@ -139,6 +143,12 @@ pub fn replay(prop: &str, file: &str) -> i32 {
                     .map_err(|e| Failure::new("replay.parse", "a C20 api case", e.to_string()))
                     .and_then(|c| c20::check_api(&c, &strict).map(|_| ())),
             },
+            "C18" => serde_json::from_value::<c18::Case>(case.clone())
+                .map_err(|e| Failure::new("replay.parse", "a C18 case", e.to_string()))
+                .and_then(|c| c18::check_case(&c, &strict).map(|_| ())),
+            "C19" => serde_json::from_value::<c19::Case>(case.clone())
+                .map_err(|e| Failure::new("replay.parse", "a C19 case", e.to_string()))
+                .and_then(|c| c19::check_case(&c, &strict).map(|_| ())),
             "C17" => serde_json::from_value::<c17::Case>(case.clone())
                 .map_err(|e| Failure::new("replay.parse", "a C17 case", e.to_string()))
                 .and_then(|c| c17::check_case(&c, &strict).map(|_| ())),
